@@ -535,3 +535,20 @@ PROPS['C01']['obligations'] = PROPS['C01']['obligations'] + [_byname[n] for n in
 PROPS['C01']['explanation'] += ' Reader side of a whole block: r_block_* (CdnsBlockRead::read with nested reads as contracts: members, record order, parameter set, time conversion data flow), reader_block_o0 (CdnsReader::read_block).'
 PROPS['C08']['obligations'] = PROPS['C08']['obligations'] + [_byname[n] for n in ('r_block_s0_f0', 'r_block_s0_f3')]
 PROPS['C03']['obligations'] = PROPS['C03']['obligations'] + [_byname[n] for n in ('r_block_s2_f0', 'r_block_s0_f0_cut')]
+
+
+# ---- file-level reader (harness/hdr.cpp): CdnsReader::CdnsReader / read_file_header, FilePreamble::read replaced by its contract ----------------
+HDR_REDIRECT = ('_ZN4CDNS12FilePreamble4readERNS_11CdnsDecoderE=stubr_FilePreamble@cdns',)
+HDR_FUNCS = ['CDNS::CdnsReader::CdnsReader(std::istream&)', 'CDNS::CdnsReader::read_file_header()', 'std::transform(..., toupper) (model <algorithm>)',
+             'contract instead of: FilePreamble::read (r_filepreamble_* obligations)']
+HDR_ASSUME = ['FilePreamble::read = "one map item; the value is the one that was written" (r_filepreamble_*)',
+              'decoder = item-level model with the L1 contract of C07; toupper() = C standard 7.4 contract (argument representable as unsigned char or EOF)',
+              'the four header items are offered at constant positions, every attribute symbolic (kind, declared length, length form, string length 0..6 and bytes), truncation point symbolic']
+HDR_OBL = Obl('reader_header', 'hdr.cpp', 'noctor:h_reader_header', unwind=30, timeout=900, redirect=HDR_REDIRECT, opt='-O1 -fno-inline', mem_gb=16, extra=('--object-bits', '12'),
+              desc='CdnsReader constructor / read_file_header on four arbitrary items (any kind, any declared length, either length form, any type-id bytes incl. >= 0x80) truncated at any point: '
+                   'accepted iff well formed (file array and blocks array definite or indefinite), CdnsDecoderEnd iff the input ends first, otherwise CdnsDecoderException; '
+                   'toupper() precondition; preamble, blocks-array form and count stored for read_block()',
+              bounds={'header items': '4, every attribute symbolic', 'type-id string': '0..6 symbolic bytes', 'truncation point': '0..4 (symbolic)'}, functions=HDR_FUNCS)
+for _p in ('C03', 'C05', 'C08', 'C09'):
+    PROPS[_p]['obligations'] = PROPS[_p]['obligations'] + [HDR_OBL]
+    PROPS[_p]['assumptions'] = list(PROPS[_p].get('assumptions', [])) + HDR_ASSUME
